@@ -390,7 +390,7 @@ Proof.
           unfold inplace_cbs, pcb in H. destruct (poison c); cbn in H; intuition discriminate.
       - destruct (alloc_log c F k s I Hk n e m Henv' T) as (m1 & P1 & T1).
         pose proof (alloc_no_unmap n e Henv') as NU.
-        destruct (alloc_inv c k s n e F I Hk Henv') as [I1 [[R [S1 _]]| (q & sz & unp & R & L1)]].
+        destruct (alloc_inv c k s n e F I Henv') as [I1 [[R [S1 _]]| (q & sz & unp & R & L1)]].
         + destruct (alloc c s n e) as [[s1 r] cbs]. cbn in *. subst r s1. cbn. exists m1.
           split; [assumption|]. split; [assumption|]. intros b0 l0 [H|H]; [discriminate|]. exfalso. apply (NU b0 l0 H).
         + destruct (alloc c s n e) as [[s1 r] cbs]. cbn in R, L1, I1, P1, T1, NU. subst r. cbv zeta.
